@@ -49,6 +49,15 @@ fn dir_sizes(dir: &str) -> J {
     J::Object(m)
 }
 
+lazy_static::lazy_static! {
+    static ref EXTRA: std::sync::Mutex<Option<Box<dyn Fn() -> J + Send>>> = std::sync::Mutex::new(None);
+}
+
+/// Extra observation attached to every logged step (e.g. the S3 stub's request log).
+pub fn set_extra(f: Option<Box<dyn Fn() -> J + Send>>) {
+    *EXTRA.lock().unwrap() = f;
+}
+
 fn role_of(s: &str) -> ClusterRole {
     match s {
         "secondary" => ClusterRole::Secoundary,
@@ -238,6 +247,14 @@ pub fn run_case(case: &J, workdir: &str, out: &mut dyn Write, n: usize) {
         ev["side"] = node.side_state();
         if dump_every || st.get("dump").is_some() {
             ev["dump"] = node.dump();
+        }
+        if let Some(f) = EXTRA.lock().unwrap().as_ref() {
+            ev["extra"] = f();
+        }
+        if let Some(g) = st.get("fail_get_once") {
+            if g.as_bool() == Some(true) {
+                crate::s3::STUB.lock().unwrap().fail_get_once = true;
+            }
         }
         writeln!(out, "{}", ev).unwrap();
     }
